@@ -82,8 +82,8 @@ CHECKS.update({
         "5 C19",
     ),
     "C20": (
-        "Lean theorems about the model of permutation_utils (group laws, cycles, enumeration) + exhaustive correspondence for all pairs n <= 5 and all cycle types n <= 6",
-        "Proof (laws for all permutations) with checked computations for the conjugacy-class enumerator where a forall-theorem is not finished; tied to the code exhaustively on small n and randomly to n = 40.",
+        "Lean theorems about the model of permutation_utils (group laws, cycles, class enumeration: sound, duplicate-free, complete) + model REGENERATED from permutation_utils.py on every run by a Python-to-Lean translator with theorems `generated = model` for the seven helpers (all arguments) and the laws transferred to the generated source + exhaustive correspondence for all pairs n <= 5 and all cycle types n <= 6",
+        "Proof (laws for all permutations; conjugacy-class enumerator sound/nodup/complete), tied to the code twice: (1) translator harness/extract/pylean.py regenerates CvGen/PyPerm.lean from the source on every run and the kernel re-checks 33 theorems `generated = model` against it (the generated definitions are also executed against Python on ~3 600 calls); (2) model/implementation correspondence, exhaustive on small n and random to n = 40.",
         "5 C20",
     ),
 })
@@ -105,8 +105,8 @@ CHECKS.update({
         "5 C14",
     ),
     "C15": (
-        "closed-form specification of every family (Lean, with forall-parameter theorems for the range/cycle-built families) + exact comparison of generators/names/central state/name for all admissible parameters up to a cap + group orders by Schreier-Sims",
-        "Proof for the specified families (validity, counts, structure, inverse-closedness for all parameters) and exhaustive small-parameter comparison of the library with the specification; group orders are checked computations.",
+        "closed-form specification of every family (Lean; 206 forall-parameter theorems: validity, counts, structure, inverse-closedness) + constructors REGENERATED from graphs_lib.py on every run by a Python-to-Lean translator with theorems `translated constructor followed by create = specification` for 26 constructors and ALL parameters + exact comparison of generators/names/central state/name for all admissible parameters up to a cap + directed search beyond the cap when a generated=specification theorem breaks + group orders by Schreier-Sims",
+        "Proof for the specified families (for all parameters), tied to the code twice: (1) translator harness/extract/pylean.py regenerates CvGen/PyFamilies.lean from the source on every run and the kernel re-checks 57 theorems `generated o create = specification` (no parameter bound) against it, the generated definitions are executed against Python on ~4 000 calls; (2) exhaustive small-parameter comparison of the library with the specification (all constructors, incl. the 9 not covered by (1): tied by (2) only); group orders are checked computations.",
         "5 C15",
     ),
     "C16": (
